@@ -7,7 +7,7 @@ ROOT = os.path.dirname(os.path.dirname(os.path.abspath(__file__)))
 TECH = {
     "C01": ("CrossHair/z3 symbolic execution of the metadata pass, open_image and Array loads; z3 LIA on live record layouts; z3 FP/BV on parse_data via numeric proxies",
             "contract stubs for fsspec/construct/numpy, validated each run; n, rpc enumerated; H, L, pixels unbounded"),
-    "C02": ("CrossHair/z3 symbolic execution of Array.__getitem__ for symbolic slice bounds against numpy basic-indexing semantics",
+    "C02": ("CrossHair/z3 symbolic execution of Array.__getitem__ for symbolic slice bounds against numpy basic-indexing semantics, single selections and sequences of selections on one array",
             "xarray adapter contract (basic keys only reach the backend); image sizes, rpc, steps enumerated"),
     "C05": ("z3 linear integer arithmetic over terms obtained by interpreting the live construct layouts symbolically; CrossHair on read_sar_trailer",
             "interpreter's construct class models (conformance-checked each run); pinned fixed record sizes"),
@@ -23,17 +23,17 @@ TECH = {
             "structure variants enumerated; xarray's list->array conversion trusted"),
     "C13": ("CrossHair/z3 symbolic execution of io.open/open_alos2 wiring (symbolic options, enumerated image orders), group naming, file roles, record-group presence and coordinate decoding",
             "sub-openers are recording stand-ins in the assembly obligation; DataTree.from_dict/set_coords trusted"),
-    "C14": ("z3 over a bounded priority matcher executing the compiled entry_re (captures under Python's backtracking order) vs an independent grammar; CrossHair/z3 on parse_summary with a symbolic validity oracle and on the section transformers with symbolic texts",
+    "C14": ("z3 over a bounded priority matcher executing the compiled entry_re (captures under Python's backtracking order) vs an independent grammar; z3 string theory: live code tables equal the pinned documented tables as functions over all strings; CrossHair/z3 on parse_summary with a symbolic validity oracle and on the section transformers with symbolic texts",
             "lines up to 16/24 code points; int()/float() uninterpreted; splitlines trusted"),
-    "C19": ("z3 search over all interleavings of recorded event programs (file handles, locks, shared-attribute accesses) of 2-3 real loads for a hazardous schedule; replay with real threads gated in the solver's order",
+    "C19": ("z3 search over all interleavings of recorded event programs (file handles, locks, shared-attribute accesses) of 2-3 real loads (own-handle and shared-handle filesystems, slice and list selections, pickled copies, a failing load) for a hazardous or deadlocking schedule; replay with real threads gated in the solver's order",
             "event programs recorded sequentially from the real code on an instrumented filesystem; programs assumed schedule-independent"),
     "C16": ("z3 LIA on the live volume-directory layout for every file-pointer count; CrossHair/z3 on PaddedString and on the real volume transformers with symbolic texts",
             "pinned layout; strings bounded; timestamp format shared with C17"),
-    "C20": ("CrossHair/z3 on the blank-field adapters and header attributes; sentinel flow = plumbing obligations for all integer values; z3 tiling proof + pinned-table check that spare areas never reach the tree; remove_spares on symbolic keys",
+    "C20": ("CrossHair/z3 on the blank-field adapters and header attributes; sentinel flow = plumbing obligations for all integer values; z3 tiling proof, z3 LIA query that no live value field overlaps a pinned spare byte range for any structure parameters, pinned-table check that spare areas never reach the tree; remove_spares on symbolic keys",
             "spare areas identified by name; numeric leaves as integers"),
     "C07": ("CrossHair/z3 symbolic execution of open_image / read_cache / create_cache / cli.create_cache / array codec on a world model with symbolic cache state, options and product protocol; concrete end-to-end witness replays",
             "json, pathlib, hashlib, fsspec, construct record parsing are contract stubs (validated each run); geometry and rpc enumerated per instance"),
-    "C08": ("CrossHair/z3 symbolic execution of the real encoders/decoders over an integer model of numpy (int64 wrap, NaT, units) and a structural json contract: round trip decided for all element values",
+    "C08": ("CrossHair/z3 symbolic execution of the real encoders/decoders over an integer model of numpy (int64 wrap, NaT, units) and a structural json contract: round trip decided for all element values (incl. float64 rounding of integer counts, uint64 casts); complete enumeration of the element-free shapes",
             "numpy and json are models validated against the real libraries through the real codec each run; |time values| < 2**62; float/str element conversion trusted"),
     "C09": ("CrossHair/z3 symbolic execution of the cache glue with both index locations symbolic over absent/complete/torn-at-k (k, length symbolic)",
             "interrupted writes are modelled by the prefixes they leave; json prefix lemma validated on every prefix of a real document each run"),
@@ -41,6 +41,12 @@ TECH = {
             "induction over histories by invariant preservation; sub-openers are stand-ins in the option-threading obligation"),
     "C18": ("CrossHair/z3 with symbolic file size and symbolic file names; z3 tiling proof on live layouts",
             "record length concrete per instance; xarray dimension check and construct short-read behaviour are contracts"),
+    "C15": ("z3 string/regular-expression theory: language inclusion both ways between the compiled patterns as applied (Unicode-aware classes) and the language composed from the pinned code tables; "
+            "fixed group widths; complete enumeration of the finite date domain through the real decoders; CrossHair/z3 on the group-name derivation",
+            "dateutil / strptime calendar validity as a regular language contract; tables pinned in spec/code_tables.json"),
+    "C17": ("CrossHair/z3 symbolic execution of the real time adapters and attitude/leader time transformers over all years, days and (milli/micro)seconds against integer calendar arithmetic; "
+            "z3 over numeric proxies of timedelta rounding and datetime64 units; z3 LIA on the offsets/widths of the 14 time-bearing fields of the live layouts",
+            "numpy datetime64/timedelta64 arithmetic and timedelta rounding are integer models validated against the libraries each run; years 2014-2049"),
 }
 DEFAULT = ("bounded symbolic verification of the real code by SMT", "see evidence assumptions")
 REASONS = {}
